@@ -291,7 +291,7 @@ def struct_coverage():
                                        "generated code — EnumString: phf entries, match arms in order, fall-through, error type, TryFrom delegation (literals of "
                                        "the real code are fed back as inputs: guided search); EnumIter: the bodies of nth / next_back / size_hint translated into "
                                        "the deep-embedded language of Model/IterProg.v (proved equal to it_nth / it_next_back / it_len) and the constructor "
-                                       "table of get. A structural difference alone is recorded, not reported",
+                                       "table of get; Display / AsRefStr: one entry per match arm (fixed literal, inner-field forward with its `ref` binding, format_args! with its bound arguments, wildcard panic). A structural difference alone is recorded, not reported",
                                "definitions_checked": STRUCT_STATS["checked"], "identical": STRUCT_STATS["matched"],
                                "not_readable": STRUCT_STATS["unparsed"], "different": STRUCT_STATS["mismatched"]}}
 
